@@ -3161,8 +3161,22 @@ namespace awkward {
 
               count_instructions_++;
               if (single_step) {
-                if (is_segment_done()) {
-                  bytecodes_pointer_pop();
+                // leave the word exactly as the full run does at
+                // 'after_end_of_segment' (the word's segment is not "done":
+                // 'exit' abandons the rest of it)
+                bytecodes_pointer_pop();
+                if (do_current_depth_ != 0  &&
+                    do_abs_recursion_depth() == recursion_current_depth_) {
+                  if (do_loop_is_step()) {
+                    if (stack_cannot_pop()) {
+                      current_error_ = util::ForthError::stack_underflow;
+                      return;
+                    }
+                    do_i() += stack_pop();
+                  }
+                  else {
+                    do_i()++;
+                  }
                 }
                 return;
               }
